@@ -1,5 +1,6 @@
 import Tahoe.Base.DrvUtil
 import Tahoe.Immutable.FetchShow
+import Tahoe.Immutable.Segmentation
 /-! Driver for C46 (DownloadNode segment queue over the SegmentFetcher model).
     `node MODE K NUMSEGS BADSEGS ev ev …`  MODE ∈ fixed|unfixed, BADSEGS = comma list of segment
     numbers whose decode / ciphertext-hash check fails (`-` = none); ev ∈
@@ -60,12 +61,78 @@ def runNEvs (n : Node) (reg : List Share) (acc : List String) : List String → 
         | _ => reg
       runNEvs n' reg' (nodeDigest n' :: acc) rest
 
+
+/-! `seg SEGSIZE GUESS OFFSET SIZE ev …` — one Segmentation (a `read(offset, size)`); ev ∈
+      S:K            start()                       (K ∈ 0|1: node.segment_size known at that moment)
+      g:ST:LEN:P:K   the get_segment Deferred fires with (ST, LEN bytes); P=1: the consumer pauses inside write()
+      f:E:K          it errbacks; E ∈ B (BadSegmentNumberError) | O (anything else)
+      x | p | r      stopProducing | pauseProducing | resumeProducing
+      t:K            the queued _maybe_fetch_next turn runs
+    Output after every event: `calls|offset|size|alive|hungry|active|turns|result`. -/
+def showSegErr : SegErr → String
+  | .wrongSegment => "WrongSegment"
+  | .badSegnum => "BadSegmentNumber"
+  | .stopped => "DownloadStopped"
+  | .assertion => "Assertion"
+  | .other _ => "other"
+
+def showSegOut : SegOut → String
+  | .getSegment n => s!"get={n}"
+  | .cancel => "cancel"
+  | .write st len => s!"write={st}+{len}"
+  | .done => "done"
+  | .errback e => "errback=" ++ showSegErr e
+
+def parseBool : String → Option Bool
+  | "0" => some false
+  | "1" => some true
+  | _ => none
+
+def parseSEv (t : String) : Option (SEv × Bool) :=
+  match t.splitOn ":" with
+  | ["S", k] => do pure (.start, (← parseBool k))
+  | ["g", a, b, p, k] => do pure (.segment (← a.toNat?) (← b.toNat?) (← parseBool p), (← parseBool k))
+  | ["f", "B", k] => do pure (.failed .badSegnum, (← parseBool k))
+  | ["f", "O", k] => do pure (.failed (.other 0), (← parseBool k))
+  | ["x"] => some (.stop, true)
+  | ["p"] => some (.pause, true)
+  | ["r"] => some (.resume, true)
+  | ["t", k] => do pure (.turn, (← parseBool k))
+  | _ => none
+
+def segDigest (s : Seg) : String :=
+  let calls := if s.out.isEmpty then "-" else ",".intercalate (s.out.map showSegOut)
+  let act := match s.active with
+    | none => "-"
+    | some n => toString n
+  let res := match s.result with
+    | none => "-"
+    | some none => "done"
+    | some (some e) => "err:" ++ showSegErr e
+  "|".intercalate [calls, toString s.offset, toString s.size, b2s s.alive, b2s s.hungry, act, toString s.turns, res]
+
+def runSEvs (s : Seg) (acc : List String) : List String → Option (List String)
+  | [] => some acc.reverse
+  | t :: rest =>
+    match parseSEv t with
+    | none => none
+    | some (e, k) =>
+      let s' := segStep { s with out := [] } k e
+      runSEvs s' (segDigest s' :: acc) rest
+
 def handle : List String → String
   | "node" :: mode :: k :: ns :: bad :: evs =>
     match (if mode == "fixed" then some true else if mode == "unfixed" then some false else none),
           k.toNat?, ns.toNat?, parseNatList bad with
     | some fx, some k, some ns, some bad =>
       match runNEvs { fixed := fx, k := k, numSegs := ns, badSegs := bad } [] [] evs with
+      | some outs => if outs.isEmpty then "-" else ";".intercalate outs
+      | none => "bad-op"
+    | _, _, _, _ => "bad-op"
+  | "seg" :: ss :: gs :: off :: sz :: evs =>
+    match ss.toNat?, gs.toNat?, off.toNat?, sz.toNat? with
+    | some ss, some gs, some off, some sz =>
+      match runSEvs { segsize := ss, guess := gs, offset := off, size := sz } [] evs with
       | some outs => if outs.isEmpty then "-" else ";".intercalate outs
       | none => "bad-op"
     | _, _, _, _ => "bad-op"
